@@ -376,6 +376,44 @@ def _global_state(_tree):
     gen = find_func(dg, "generate")
     po = [ast.unparse(x).replace("\n", " ") for x in gen.body if "plugin_options" in ast.unparse(x) and not isinstance(x, (ast.Try,))]
     out += _strlist("generatePluginOptions", po, "statements of `generate` that touch plugin_options")
+    # is the caller's dict copied before anything is stored into it?
+    first = None
+    for x in gen.body:
+        if isinstance(x, ast.Assign) and ast.unparse(x.targets[0]) == "plugin_options":
+            first = x
+            break
+    stores_before = False
+    for x in gen.body:
+        if x is first:
+            break
+        if "plugin_options[" in ast.unparse(x):
+            stores_before = True
+    if first is None:
+        raise PinError("generate: no assignment to plugin_options")
+    v = first.value
+    copies = (isinstance(v, ast.Call) and (ast.unparse(v.func) in ("dict", "copy.copy", "copy.deepcopy", "copy", "deepcopy")
+                                           or (isinstance(v.func, ast.Attribute) and v.func.attr == "copy"))) and not stores_before
+    out += f"/-- `generate` copies the caller's plugin_options before writing to it: `{ast.unparse(first)}` -/\ndef copiesPluginOptions : Bool := {'true' if copies else 'false'}\n"
+    # what StandardFuncs.datetime does with the object parse_datetimespec returns
+    dtf = find_func(find_class(tf, "Functions"), "datetime")
+    post = []
+    for n in ast.walk(dtf):
+        if isinstance(n, ast.If) and any("parse_datetimespec" in ast.unparse(x) for x in n.body):
+            seen = False
+            for x in n.body:
+                if "parse_datetimespec" in ast.unparse(x):
+                    seen = True
+                if seen:
+                    post.append(ast.unparse(x))
+            break
+    if not post:
+        raise PinError("Functions.datetime: the call of parse_datetimespec was not found")
+    out += _strlist("datetimePostprocess", post, "`Functions.datetime`: from the cached lookup to the returned value")
+    dflt = [ast.unparse(d) for a, d in zip(dtf.args.kwonlyargs, dtf.args.kw_defaults) if a.arg == "timezone"]
+    out += _strlist("datetimeDefaultZone", dflt, "default of the `timezone` parameter of `Functions.datetime`")
+    dfn = find_func(find_class(tf, "Functions"), "date")
+    out += _strlist("dateReturns", [ast.unparse(n) for n in ast.walk(dfn) if isinstance(n, ast.Return)],
+                    "`Functions.date`: the cached lookup is returned as it is")
     rhc = find_class(rh, "RowHistory")
     aw = [ast.unparse(n) for n in ast.walk(rhc) if isinstance(n, ast.Assign) and "already_warned" in ast.unparse(n.targets[0])]
     out += _strlist("alreadyWarnedStores", aw, "assignments to RowHistory.already_warned (class default, instance latch)")
